@@ -84,7 +84,7 @@ def cases(draw, tier):
         cls = "DH" if tab[name][2] else draw(st.sampled_from(["H", "SC"]))
     else:
         cls = draw(st.sampled_from(["H", "SC", "DH"]))
-    spec = draw(nets.net_spec(cls=cls, max_edges=6, allow_empty=draw(st.integers(0, 4)) == 0 and cls != "SC", nested=True, tuples=True))
+    spec = draw(nets.net_spec(wide_labels=True, cls=cls, max_edges=6, allow_empty=draw(st.integers(0, 4)) == 0 and cls != "SC", nested=True, tuples=True))
     return {"fn": name, "spec": spec, "picks": draw(st.lists(st.integers(0, 1000), min_size=8, max_size=8))}
 
 
